@@ -67,6 +67,9 @@ func c20Case(w *core.Worker, i int) {
 			hist = append(hist, stmt{"select", "SELECT id, ver, note FROM (SELECT * FROM t) s;"})
 		case c == 4:
 			hist = append(hist, stmt{"select", "WITH w AS (SELECT * FROM t) SELECT id, ver, note FROM w;"})
+		case c == 5 && r.Bool():
+			// the same file under another spelling of its path ({DIR} = the repository directory)
+			hist = append(hist, stmt{"select", "SELECT id, ver, note FROM `" + []string{"{DIR}/./t", "{DIR}//t.csv", "{DIR}/sub/../t", "./t.csv", "sub/../t", "{DIR}/t"}[r.Intn(6)] + "`;"})
 		case c == 5:
 			hist = append(hist, stmt{"select", "SELECT a.id, b.ver, a.note FROM t a JOIN t b ON a.id = b.id;"})
 		case c == 6:
@@ -111,6 +114,12 @@ func c20Run(w *core.Worker, ci int, hsql []string, kind func(int) string, gaps [
 	dir := core.FreshDir(w.Work, "repo")
 	disk := []c20Row{{"1", "v0", "n"}, {"2", "v0", "n"}, {"3", "v0", "n"}}
 	_ = os.WriteFile(filepath.Join(dir, "t.csv"), []byte(c20Render(disk)), 0644)
+	_ = os.MkdirAll(filepath.Join(dir, "sub"), 0755)
+	orig := hsql
+	hsql = append([]string{}, hsql...)
+	for k := range hsql {
+		hsql[k] = strings.ReplaceAll(hsql[k], "{DIR}", dir)
+	}
 	_ = os.WriteFile(filepath.Join(dir, "u.csv"), []byte("id\n1\n2\n3\n101\n102\n103\n104\n105\n106\n107\n108\n109\n"), 0644)
 	s, err := core.NewSess(core.SessOpts{Dir: dir, Quiet: true, WaitTimeout: 0.3})
 	if err != nil {
@@ -236,5 +245,5 @@ func c20Run(w *core.Worker, ci int, hsql []string, kind func(int) string, gaps [
 	}
 	w.Count("interleavings_run", 1)
 	w.Count("commits_of_B", int64(bN))
-	w.Case(core.Digest(strings.Join(hsql, "|"), fmt.Sprint(gaps)), readAfter)
+	w.Case(core.Digest(strings.Join(orig, "|"), fmt.Sprint(gaps)), readAfter)
 }
